@@ -807,13 +807,18 @@ example : ReqOK nearProbe ∧ ¬ CompactProbe nearProbe :=
 /-! ### reads -/
 
 /-- Range over a proper interval `[key, range_end)`, any limit, at revision 0 or any revision up to the
-committed one (except the partition-listing magic 1888), no option the shim ignores: same header,
+committed one, no option the shim ignores: same header,
 same key-values in the same order, same more-flag; Count never exceeds etcd's and is equal whenever
-there is no more (`range_count_partial` part; for the other case see `limited_count_wrong`). -/
+there is no more (`range_count_partial` part; for the other case see `limited_count_wrong`).
+The magic revision 1888 (/repo e617587): the only request left outside is the UNLIMITED plain range at revision
+exactly 1888 — `hmagic` asks for a limit (or `count_only`) THERE and nothing anywhere else; a page of a
+paginated list at revision 1888 is covered (`paginated_list_at_magic_revision_matches_ref`). Before the repair the
+hypothesis had to be `r.revision ≠ getPartitionMagic` (`old_magic_swallowed_page_two`). -/
 theorem range_matches_ref (c : Cfg) (s : BState) (recs : List Rec) (hst : StoreAbs c s recs) (r : RangeReq)
     (hp : PlainRange r) (hco : r.countOnly = false) (hk : r.key ≠ []) (hka : Alphabet r.key)
     (hea : Alphabet r.rangeEnd) (hlt : cmp r.key r.rangeEnd = .lt) (hr0 : 0 ≤ r.revision)
-    (hrc : r.revision ≤ s.committed) (hmagic : r.revision ≠ getPartitionMagic) (hcb : s.committed < 2 ^ 64) :
+    (hrc : r.revision ≤ s.committed)
+    (hmagic : r.revision = getPartitionMagic → r.limit ≠ 0 ∨ r.countOnly = true) (hcb : s.committed < 2 ^ 64) :
     ∃ a b, shimRange c s r = .ok a ∧ refRangeH (histOf recs s.committed) r = .ok b ∧
       a.hdr = b.hdr ∧ a.kvs = b.kvs ∧ a.more = b.more ∧ a.count ≤ b.count ∧ (a.more = false → a.count = b.count) :=
   range_list_sound c s recs hst r hp hco hk hka hea hlt hr0 hrc hmagic hcb
@@ -823,12 +828,13 @@ count iff the range holds at most `limit + 1` keys. -/
 theorem range_count_partial (c : Cfg) (s : BState) (recs : List Rec) (hst : StoreAbs c s recs) (r : RangeReq)
     (hp : PlainRange r) (hco : r.countOnly = false) (hk : r.key ≠ []) (hka : Alphabet r.key)
     (hea : Alphabet r.rangeEnd) (hlt : cmp r.key r.rangeEnd = .lt) (hr0 : 0 ≤ r.revision)
-    (hrc : r.revision ≤ s.committed) (hmagic : r.revision ≠ getPartitionMagic) (hcb : s.committed < 2 ^ 64) :
+    (hrc : r.revision ≤ s.committed)
+    (hmagic : r.revision = getPartitionMagic → r.limit ≠ 0 ∨ r.countOnly = true) (hcb : s.committed < 2 ^ 64) :
     ∃ a, shimRange c s r = .ok a ∧ a.count = a.kvs.length + (if a.more then 1 else 0) := by
   have hee := isEmpty_false_of_ne (ne_nil_of_lt hlt)
   obtain ⟨res, hres, _⟩ := C03.list_spec c hst.single s hst.store hst.sorted hst.keys
     r.key r.rangeEnd hka hea hlt (toU64 r.revision) r.limit.toNat
-  have hm : (r.revision == getPartitionMagic) = false := by simpa using hmagic
+  have hm : magicGuard r = false := magicGuard_false_of hmagic
   exact ⟨⟨res.hdr, res.kvs, res.kvs.length + (if res.more then 1 else 0), res.more⟩,
     by simp [shimRange, hee, hm, hco, hres, liftScan], rfl⟩
 
@@ -876,29 +882,217 @@ theorem count_bounds_unchecked :
     shimRange cfg0 s3 { key := pfxLo, rangeEnd := [0] } = .error (.backend .invalid) ∧
     shimRange cfg0 s3 { key := kC, rangeEnd := kA } = .error (.backend .invalid) := by decide
 
-/-- Observation outside the property's quantifier: a List at the revision 1888 is answered with the
-engine's partition borders (kubebrain-client's partition protocol), whatever the history is. -/
+/-! ### the partition-listing magic revision 1888 (/repo e617587)
+
+`RPCServer.Range` answers a request with a `range_end` at revision `GetPartitionMagic` (1888) with the engine's
+partition borders (kubebrain-client's in-band partition protocol). 1888 is an ORDINARY revision on engines whose
+revisions count commits (Badger, the in-memory engine) and in every store initialised near 1000: before /repo
+e617587 the test was the revision ALONE, so page 2 of a paginated list whose first page carried header revision
+1888 (kube-apiserver's continue request: `limit > 0`, `revision = 1888`) and a count at revision 1888 were answered
+with border keys (`old_magic_swallowed_page_two`). Now the guard is `revision = 1888 ∧ limit = 0 ∧ ¬count_only`. -/
+
+/-- The guard of the partition-listing branch and the whole dispatch chain of `RPCServer.Range` AS THE EXTRACTOR
+FINDS THEM IN kv.go on this run (`KB/Generated/Consts.lean`, harness/cmd/kbextract/rangedispatch.go): dropping a
+conjunct of the guard (e.g. reverting /repo e617587: `["Revision==GetPartitionMagic"]`), adding one, reordering the
+chain or changing the magic's value makes this `decide` fail. -/
+theorem magic_guard_as_in_source :
+    Generated.partitionMagicGuard = ["Revision==GetPartitionMagic", "Limit==0", "!CountOnly"] ∧
+    Generated.rangeDispatch =
+      [(["len(RangeEnd)==0"], "Get"), (["Revision==GetPartitionMagic", "Limit==0", "!CountOnly"], "GetPartitions"),
+       (["CountOnly"], "Count"), ([], "List")] ∧
+    Generated.partitionMagic = 1888 ∧ getPartitionMagic = 1888 ∧ Generated.constsUnresolved = [] := by decide
+
+/-- ... and READ AS A PROGRAM (`dispatchBy`, `guardHolds`: every conjunct interpreted on the request, an unknown
+conjunct = no answer) the regenerated chain selects, for EVERY request, the branch the model's `shimRange` takes,
+and the regenerated guard is the model's `magicGuard`. -/
+theorem range_dispatch_as_in_source (r : RangeReq) :
+    dispatchBy Generated.rangeDispatch r = some (rangeBranch r).method ∧
+    guardHolds Generated.partitionMagicGuard r = some (magicGuard r) := by
+  obtain ⟨hg, hd, -, -, -⟩ := magic_guard_as_in_source
+  rw [hg, hd]
+  have a1 : atomHolds "len(RangeEnd)==0" r = some r.rangeEnd.isEmpty := by simp [atomHolds]
+  have a2 : atomHolds "Revision==GetPartitionMagic" r = some (r.revision == getPartitionMagic) := by simp [atomHolds]
+  have a3 : atomHolds "Limit==0" r = some (r.limit == 0) := by simp [atomHolds]
+  have a4 : atomHolds "!CountOnly" r = some (!r.countOnly) := by simp [atomHolds]
+  have a5 : atomHolds "CountOnly" r = some r.countOnly := by simp [atomHolds]
+  simp only [dispatchBy, guardHolds, a1, a2, a3, a4, a5, rangeBranch, magicGuard]
+  rcases Bool.eq_false_or_eq_true r.rangeEnd.isEmpty with he | he <;>
+  rcases Bool.eq_false_or_eq_true (r.revision == getPartitionMagic) with hm | hm <;>
+  rcases Bool.eq_false_or_eq_true (r.limit == 0) with hl | hl <;>
+  rcases Bool.eq_false_or_eq_true r.countOnly with hc | hc <;>
+  simp [he, hm, hl, hc, RangeBranch.method]
+
+/-- which requests the model sends to which branch, and what `shimRange` is on each -/
+theorem shimRange_by_branch (c : Cfg) (s : BState) (r : RangeReq) :
+    (rangeBranch r = .partitions → shimRange c s r = .ok (partitionListing c s r)) ∧
+    (rangeBranch r ≠ .partitions → shimRange c s r = shimRangePlain c s r) := by
+  unfold rangeBranch shimRange shimRangePlain
+  cases r.rangeEnd.isEmpty <;> cases magicGuard r <;> cases r.countOnly <;> simp
+
+/-- THE PARTITION LISTING IS ONLY FOR THE PLAIN UNLIMITED REQUEST: the partition-listing branch is taken iff
+`revision = 1888 ∧ limit = 0 ∧ ¬count_only ∧ range_end ≠ []`; there the answer is `partitionListing` (borders); and
+EVERYWHERE ELSE `RPCServer.Range` is the dispatcher without any magic (`shimRangePlain`: Get / Count / List by
+`range_end` and `count_only` alone). -/
+theorem partition_listing_only_for_plain_unlimited (c : Cfg) (s : BState) (r : RangeReq) :
+    (rangeBranch r = .partitions ↔ r.revision = 1888 ∧ r.limit = 0 ∧ r.countOnly = false ∧ r.rangeEnd ≠ []) ∧
+    (r.revision = 1888 ∧ r.limit = 0 ∧ r.countOnly = false ∧ r.rangeEnd ≠ [] →
+      shimRange c s r = .ok (partitionListing c s r)) ∧
+    (¬ (r.revision = 1888 ∧ r.limit = 0 ∧ r.countOnly = false ∧ r.rangeEnd ≠ []) →
+      shimRange c s r = shimRangePlain c s r) := by
+  have hiff : rangeBranch r = .partitions ↔
+      r.revision = 1888 ∧ r.limit = 0 ∧ r.countOnly = false ∧ r.rangeEnd ≠ [] := by
+    have h1888 : getPartitionMagic = 1888 := by decide
+    have hg := magicGuard_iff r
+    rw [h1888] at hg
+    unfold rangeBranch
+    cases he : r.rangeEnd with
+    | nil => simp
+    | cons x xs =>
+      cases hm : magicGuard r with
+      | true =>
+        have := hg.mp hm
+        simp [this.1, this.2.1, this.2.2]
+      | false =>
+        have hn : ¬ (r.revision = 1888 ∧ r.limit = 0 ∧ r.countOnly = false) := fun h => by
+          have := hg.mpr h; rw [hm] at this; cases this
+        cases hc : r.countOnly <;> simp_all
+  obtain ⟨h1, h2⟩ := shimRange_by_branch c s r
+  exact ⟨hiff, fun h => h1 (hiff.mpr h), fun h => h2 (fun hb => h (hiff.mp hb))⟩
+
+/-- THE REMAINING AMBIGUITY, kept visible: an UNLIMITED, non-count range (`range_end` given) at revision EXACTLY
+1888 is still answered with the partition borders — internal keys, empty values, mod revision 0, `more = false`,
+on every state, whatever the history is. This is the protocol's own in-band signalling (a kubebrain-aware client
+asks for the partitions with exactly this request; nothing in it distinguishes it from a reader's). On an engine
+whose revisions are TSO timestamps no store revision equals 1888; where store revisions CAN equal 1888 (Badger,
+the in-memory engine: revisions count commits) an unpaginated list at the explicit revision 1888
+(`resourceVersionMatch=Exact` without a limit) is a residual deviation from etcd (`magic_revision_hijacked` gives the
+numbers). Removing it needs a protocol decision (a discriminator no etcd client sends), not a guard. The check
+records it as an OBSERVATION (`range-unlimited-at-magic-revision-is-partition-listing`), not as a violation. -/
+theorem unlimited_plain_range_at_magic_is_partition_listing (c : Cfg) (s : BState) (r : RangeReq)
+    (hend : r.rangeEnd ≠ []) (hrev : r.revision = 1888) (hlim : r.limit = 0) (hco : r.countOnly = false) :
+    shimRange c s r = .ok (partitionListing c s r) ∧
+    (partitionListing c s r).hdr = s.committed ∧ (partitionListing c s r).more = false ∧
+    ∀ kv ∈ (partitionListing c s r).kvs, kv.2.1 = [] ∧ kv.2.2 = 0 := by
+  refine ⟨(partition_listing_only_for_plain_unlimited c s r).2.1 ⟨hrev, hlim, hco, hend⟩, rfl, rfl, ?_⟩
+  intro kv hkv
+  simp only [partitionListing, List.mem_map] at hkv
+  obtain ⟨k, _, rfl⟩ := hkv
+  exact ⟨rfl, rfl⟩
+
+/-- the state of the magic-revision witnesses: `sm3` = three creates from revision 1885 (/r/a@1886, /r/b@1887,
+/r/c@1888): the committed revision IS the magic -/
+def sm0 : BState := { ring := Ring.new 4, dealt := 1885, committed := 1885 }
+def sm3 : BState :=
+  (shimTxn cfg0 (shimTxn cfg0 (shimTxn cfg0 sm0 (k8sCreate kA v1 0)).2 (k8sCreate kB v2 0)).2 (k8sCreate kC v3 0)).2
+
+/-- the decoded store of `sm3` -/
+def recsM : List Rec :=
+  [ { key := kA, rev := 0, val := be64 1886, ik := encode kA 0 }, { key := kA, rev := 1886, val := v1, ik := encode kA 1886 },
+    { key := kB, rev := 0, val := be64 1887, ik := encode kB 0 }, { key := kB, rev := 1887, val := v2, ik := encode kB 1887 },
+    { key := kC, rev := 0, val := be64 1888, ik := encode kC 0 }, { key := kC, rev := 1888, val := v3, ik := encode kC 1888 } ]
+
+/-- the hypotheses of the range theorems hold on `sm3`, whose committed revision is 1888 -/
+theorem sm3_store_abs : StoreAbs cfg0 sm3 recsM ∧ sm3.committed = 1888 :=
+  ⟨⟨by decide, by decide, by decide, by decide, rfl, rfl⟩, by decide⟩
+
+/-- The numbers of the remaining ambiguity on `sm3`: the unlimited plain range at revision 1888 is answered with the
+two borders of the single partition (etcd: the three keys), at revision 1887 with the two keys of that revision; a
+point read at 1888 is a point read. -/
 theorem magic_revision_hijacked :
-    let sm : BState := { ring := Ring.new 4, dealt := 1885, committed := 1885 }
-    let sm3 := (shimTxn cfg0 (shimTxn cfg0 (shimTxn cfg0 sm (k8sCreate kA v1 0)).2 (k8sCreate kB v2 0)).2
-      (k8sCreate kC v3 0)).2
     sm3.committed = 1888 ∧
     shimRange cfg0 sm3 { key := pfxLo, rangeEnd := pfxHi, revision := 1888 } =
       .ok { hdr := 1888, kvs := [(encode pfxLo 0, [], 0), (encode pfxHi 0, [], 0)], count := 2, more := false } ∧
+    refRangeH (histOf recsM 1888) { key := pfxLo, rangeEnd := pfxHi, revision := 1888 } =
+      .ok { hdr := 1888, kvs := [(kA, v1, 1886), (kB, v2, 1887), (kC, v3, 1888)], count := 3, more := false } ∧
     (shimRange cfg0 sm3 { key := pfxLo, rangeEnd := pfxHi, revision := 1887 }).map (·.kvs) =
-      .ok [(kA, v1, 1886), (kB, v2, 1887)] := by decide
+      .ok [(kA, v1, 1886), (kB, v2, 1887)] ∧
+    shimRange cfg0 sm3 { key := kC, revision := 1888 } =
+      .ok { hdr := 1888, kvs := [(kC, v3, 1888)], count := 1, more := false } := by decide
+
+/-- A PAGE OF A PAGINATED LIST AT THE MAGIC REVISION (`limit > 0`, `revision = 1888` — kube-apiserver's continue
+request after a first page with header revision 1888) is answered like a page at any other revision: the
+reference's answer (`range_succ_bounds_match_ref` at the magic; ARBITRARY bounds, so the continue key
+`lastKey ++ "\0"` is covered). -/
+theorem paginated_list_at_magic_revision_matches_ref (c : Cfg) (s : BState) (recs : List Rec)
+    (hst : StoreAbs c s recs) (r : RangeReq) (hp : PlainRange r) (hco : r.countOnly = false) (hk : r.key ≠ [])
+    (hlt : cmp r.key r.rangeEnd = .lt) (hrev : r.revision = getPartitionMagic) (hlim : 0 < r.limit)
+    (hrc : getPartitionMagic ≤ s.committed) (hcb : s.committed < 2 ^ 64) :
+    ∃ a b, shimRange c s r = .ok a ∧ refRangeH (histOf recs s.committed) r = .ok b ∧
+      a.hdr = b.hdr ∧ a.kvs = b.kvs ∧ a.more = b.more ∧ a.count ≤ b.count ∧ (a.more = false → a.count = b.count) := by
+  have h0 : (0 : Int) ≤ getPartitionMagic := by decide
+  exact range_list_sound_bounds c s recs hst r hp hco hk hlt (by rw [hrev]; exact h0) (by rw [hrev]; exact hrc)
+    (fun _ => .inl (by omega)) hcb
+
+/-- A COUNT AT THE MAGIC REVISION (`count_only`, `revision = 1888`) is the count of THAT revision — etcd's whole
+response (before /repo e617587: the number of partition borders, with the borders as key-values). -/
+theorem count_at_magic_revision_matches_ref (c : Cfg) (s : BState) (recs : List Rec) (hst : StoreAbs c s recs)
+    (r : RangeReq) (hp : PlainRange r) (hco : r.countOnly = true) (hk : r.key ≠ []) (hlt : cmp r.key r.rangeEnd = .lt)
+    (hrev : r.revision = getPartitionMagic) (hrc : getPartitionMagic ≤ s.committed) (hcb : s.committed < 2 ^ 64) :
+    ∃ a, shimRange c s r = .ok a ∧ refRangeH (histOf recs s.committed) r = .ok a := by
+  have h0 : (0 : Int) < getPartitionMagic := by decide
+  exact range_count_rev_sound c s recs hst r hp hco hk hlt (by rw [hrev]; exact h0) (by rw [hrev]; exact hrc) hcb
+
+/-- REFUTATION of `RPCServer.Range` as it was before /repo e617587 (`shimRangeOld`: the magic revision tested before
+limit and `count_only`), on `sm3` (/r/a@1886, /r/b@1887, /r/c@1888; committed revision 1888): the first page of a
+paginated list at "latest" carries header revision 1888 and `more`; the CONTINUE REQUEST kube-apiserver then sends
+— `key = /r/a\0`, `limit = 1`, `revision = 1888` — was answered with two internal border keys (empty values, mod
+revision 0) and `more = false`: the list ended there, /r/b and /r/c were never returned; a count at revision 1888
+answered 2 (the number of borders, and carried them as key-values). The repaired `shimRange` answers both as the
+reference does (page: /r/b@1887, more; count: 3). The hypotheses of the range theorems hold on `sm3`
+(`sm3_store_abs`), so `hmagic` could not simply be dropped before the repair. -/
+theorem old_magic_swallowed_page_two :
+    sm3.committed = 1888 ∧
+    shimRangeOld cfg0 sm3 { key := pfxLo, rangeEnd := pfxHi, limit := 1 } =
+      .ok { hdr := 1888, kvs := [(kA, v1, 1886)], count := 2, more := true } ∧
+    shimRangeOld cfg0 sm3 { key := kA ++ [0], rangeEnd := pfxHi, limit := 1, revision := 1888 } =
+      .ok { hdr := 1888, kvs := [(encode kA (2 ^ 64 - 1) ++ [0], [], 0), (encode pfxHi 0, [], 0)], count := 2,
+            more := false } ∧
+    shimRange cfg0 sm3 { key := kA ++ [0], rangeEnd := pfxHi, limit := 1, revision := 1888 } =
+      .ok { hdr := 1888, kvs := [(kB, v2, 1887)], count := 2, more := true } ∧
+    refRangeH (histOf recsM 1888) { key := kA ++ [0], rangeEnd := pfxHi, limit := 1, revision := 1888 } =
+      .ok { hdr := 1888, kvs := [(kB, v2, 1887)], count := 2, more := true } ∧
+    shimRangeOld cfg0 sm3 { key := pfxLo, rangeEnd := pfxHi, countOnly := true, revision := 1888 } =
+      .ok { hdr := 1888, kvs := [(encode pfxLo 0, [], 0), (encode pfxHi 0, [], 0)], count := 2, more := false } ∧
+    shimRange cfg0 sm3 { key := pfxLo, rangeEnd := pfxHi, countOnly := true, revision := 1888 } =
+      .ok { hdr := 1888, kvs := [], count := 3, more := false } ∧
+    refRangeH (histOf recsM 1888) { key := pfxLo, rangeEnd := pfxHi, countOnly := true, revision := 1888 } =
+      .ok { hdr := 1888, kvs := [], count := 3, more := false } := by decide
+
+/-- ... and the repaired dispatcher differs from the old one ONLY on requests at the magic revision that carry a
+limit or `count_only`: everywhere else (every other revision, and the plain unlimited request at 1888) the two
+answer alike — the repair changes nothing else. -/
+theorem old_and_new_differ_only_at_magic (c : Cfg) (s : BState) (r : RangeReq)
+    (h : ¬ (r.revision = 1888 ∧ (r.limit ≠ 0 ∨ r.countOnly = true))) :
+    shimRangeOld c s r = shimRange c s r := by
+  have h1888 : getPartitionMagic = 1888 := by decide
+  have hg : magicGuardOld r = magicGuard r := by
+    unfold magicGuardOld magicGuard
+    rw [h1888]
+    by_cases hr : r.revision = 1888
+    · have hl : r.limit = 0 := Classical.byContradiction fun hl => h ⟨hr, .inl hl⟩
+      have hc : r.countOnly = false := by
+        cases hc : r.countOnly with
+        | false => rfl
+        | true => exact absurd ⟨hr, .inr hc⟩ h
+      simp [hr, hl, hc]
+    · have : (r.revision == 1888) = false := by simpa using hr
+      simp [this]
+  unfold shimRangeOld shimRange
+  rw [hg]
 
 /-- `count_only` AT AN EXPLICIT REVISION (/repo 5f2847c; formerly the observation `count_only_ignores_revision`:
 the revision was dropped): over a proper interval with ARBITRARY bounds (any byte strings — since /repo 23c8b93;
-before: keys or successors `K ++ [0]` of keys), at any revision `0 < R ≤ committed` (≠ 1888), the whole response —
+before: keys or successors `K ++ [0]` of keys), at EVERY revision `0 < R ≤ committed` — the magic 1888 included
+since /repo e617587 (before, the hypothesis `r.revision ≠ getPartitionMagic` was needed: a count at revision 1888
+answered the number of partition borders) —, the whole response —
 header, no kvs, Count = the number of keys of the range AT `R`, no more — equals etcd's. (A `range_end` of `"\0"`,
 etcd's "from key" marker, cannot be the end of a proper interval above a non-empty key: `end_ne_zero_of_lt`.) -/
 theorem count_only_at_revision_matches_ref (c : Cfg) (s : BState) (recs : List Rec) (hst : StoreAbs c s recs)
     (r : RangeReq) (hp : PlainRange r) (hco : r.countOnly = true) (hk : r.key ≠ []) (hlt : cmp r.key r.rangeEnd = .lt)
-    (hr0 : 0 < r.revision) (hrc : r.revision ≤ s.committed) (hmagic : r.revision ≠ getPartitionMagic)
+    (hr0 : 0 < r.revision) (hrc : r.revision ≤ s.committed)
     (hcb : s.committed < 2 ^ 64) :
     ∃ a, shimRange c s r = .ok a ∧ refRangeH (histOf recs s.committed) r = .ok a :=
-  range_count_rev_sound c s recs hst r hp hco hk hlt hr0 hrc hmagic hcb
+  range_count_rev_sound c s recs hst r hp hco hk hlt hr0 hrc hcb
 
 /-- ... and at the CURRENT revision (`range_count_only_matches_ref` for arbitrary bounds). -/
 theorem count_only_any_bounds_matches_ref (c : Cfg) (s : BState) (recs : List Rec) (hst : StoreAbs c s recs)
@@ -908,13 +1102,14 @@ theorem count_only_any_bounds_matches_ref (c : Cfg) (s : BState) (recs : List Re
   range_count_sound_bounds c s recs hst r hp hco hk hlt hr0
 
 /-- ... and BELOW THE COMPACTION FLOOR it is refused (on every state, any bounds of a proper interval), like
-the same range without `count_only` (C08 `list_refused_below_floor`); etcd answers `ErrCompacted`. -/
+the same range without `count_only` (C08 `list_refused_below_floor`); etcd answers `ErrCompacted`. (No exception
+for the magic revision any more: a count at revision 1888 below the floor is refused too — /repo e617587.) -/
 theorem count_only_below_floor_refused (c : Cfg) (s : BState) (r : RangeReq) (hco : r.countOnly = true)
     (hlt : cmp r.key r.rangeEnd = .lt) (hr0 : 0 < r.revision) (hr63 : r.revision < 2 ^ 63)
-    (hmagic : r.revision ≠ getPartitionMagic) (hfl : toU64 r.revision < floorOf c s.store) :
+    (hfl : toU64 r.revision < floorOf c s.store) :
     shimRange c s r = .error (.backend .belowFloor) := by
   have hee := isEmpty_false_of_ne (ne_nil_of_lt hlt)
-  have hm : (r.revision == getPartitionMagic) = false := by simpa using hmagic
+  have hm : magicGuard r = false := magicGuard_false_of_count hco
   have hz : (toU64 r.revision == 0) = false := by
     have : toU64 r.revision ≠ 0 := by
       rw [toU64_of_nonneg (by omega) (by omega)]
@@ -949,7 +1144,8 @@ with a low byte): same header, same key-values in the same order, same more-flag
 only hypotheses left on the bounds are those of a proper interval above a non-empty key. -/
 theorem range_succ_bounds_match_ref (c : Cfg) (s : BState) (recs : List Rec) (hst : StoreAbs c s recs) (r : RangeReq)
     (hp : PlainRange r) (hco : r.countOnly = false) (hk : r.key ≠ []) (hlt : cmp r.key r.rangeEnd = .lt)
-    (hr0 : 0 ≤ r.revision) (hrc : r.revision ≤ s.committed) (hmagic : r.revision ≠ getPartitionMagic)
+    (hr0 : 0 ≤ r.revision) (hrc : r.revision ≤ s.committed)
+    (hmagic : r.revision = getPartitionMagic → r.limit ≠ 0 ∨ r.countOnly = true)
     (hcb : s.committed < 2 ^ 64) :
     ∃ a b, shimRange c s r = .ok a ∧ refRangeH (histOf recs s.committed) r = .ok b ∧
       a.hdr = b.hdr ∧ a.kvs = b.kvs ∧ a.more = b.more ∧ a.count ≤ b.count ∧ (a.more = false → a.count = b.count) :=
@@ -1073,6 +1269,24 @@ example : ∃ (m m' : Mvcc) (w : WEvent) (old : KVFull), m.get w.key = some old 
    { key := kA, val := v1, mod := 1001, create := 1001, version := 1 }, by decide, by decide, by decide, rfl⟩
 example : PlainRange { key := pfxLo, rangeEnd := pfxHi, limit := 1 } ∧ Alphabet pfxLo ∧ Alphabet pfxHi ∧
     cmp pfxLo pfxHi = .lt := ⟨⟨rfl, rfl, rfl, rfl, rfl, rfl⟩, by decide, by decide, by decide⟩
+
+-- paginated_list_at_magic_revision_matches_ref / count_at_magic_revision_matches_ref: on `sm3` (`sm3_store_abs`) the
+-- continue request of a paginated list and a count at revision 1888 satisfy every hypothesis
+example : StoreAbs cfg0 sm3 recsM ∧
+    PlainRange { key := kA ++ [0], rangeEnd := pfxHi, limit := 1, revision := 1888 } ∧ kA ++ [0] ≠ [] ∧
+    cmp (kA ++ [0]) pfxHi = .lt ∧ (1888 : Int) = getPartitionMagic ∧ (0 : Int) < 1 ∧
+    getPartitionMagic ≤ (sm3.committed : Int) ∧ sm3.committed < 2 ^ 64 :=
+  ⟨sm3_store_abs.1, ⟨rfl, rfl, rfl, rfl, rfl, rfl⟩, by decide, by decide, by decide, by decide, by decide, by decide⟩
+-- range_matches_ref's `hmagic`: satisfied AT the magic revision by a limited request, and vacuously anywhere else
+example : ((({ limit := 2, revision := 1888 } : RangeReq).revision = getPartitionMagic →
+      ({ limit := 2, revision := 1888 } : RangeReq).limit ≠ 0 ∨ ({ limit := 2, revision := 1888 } : RangeReq).countOnly = true)) ∧
+    (({ revision := 1887 } : RangeReq).revision = getPartitionMagic →
+      ({ revision := 1887 } : RangeReq).limit ≠ 0 ∨ ({ revision := 1887 } : RangeReq).countOnly = true) :=
+  ⟨fun _ => .inl (by decide), fun h => absurd h (by decide)⟩
+-- old_and_new_differ_only_at_magic / unlimited_plain_range_at_magic_is_partition_listing
+example : ¬ (({ rangeEnd := pfxHi, revision := 1888 } : RangeReq).revision = 1888 ∧
+    (({ rangeEnd := pfxHi, revision := 1888 } : RangeReq).limit ≠ 0 ∨
+     ({ rangeEnd := pfxHi, revision := 1888 } : RangeReq).countOnly = true)) := by decide
 
 -- range_succ_bounds_match_ref / count_only_*: a proper interval with low-byte bounds above a non-empty key
 example : PlainRange { key := kA ++ [1], rangeEnd := kA ++ [36, 98] } ∧ kA ++ [1] ≠ [] ∧
